@@ -42,6 +42,8 @@ def check(chk, fx):
     chk.rule("GCT", "abstract cases of get_current_term", 8)
     c08.gct(chk, fx)
     c10.pos_p(chk, fx)
+    from . import c04
+    c04.ws(chk, fx)          # "after the same whitespace skipping"
     caprules.cap_t(chk, fx)
     idxrule.report(chk, fx, lambda q: q.startswith(P + "get_current_term") or q.startswith(P + "shift") or
                    q.startswith(P + "context_parse") or q.startswith(P + "syntax_error") or
